@@ -3,7 +3,7 @@ import json, os, subprocess
 import vlib, engine_common as ec
 
 TB = ["Print Assumptions: C06_search_terminates, C06_search_plain_refuted, C06_search_plain_terminates_on_dags, C06_request_on_stack_is_cyclic, C06_cyc_spec_deterministic, C06_fresh_cyclic_program_takes_defaults, C06_fresh_cyclic_program_any_task_order, C06_incremental_cycle_membership_refuted, C06_search_answer_correct, C06_search_overwrite_refuted, C06_exit_marks_exactly_cycle_closers, C06_exit_mark_shortcut_refuted, C06_search_marks_exact_on_dags closed under the global context",
-      "C06_search_terminates and C06_search_answer_correct are instantiated with the shape of check_cyclic_internal read from computing.rs on this run (tools/gen_sources.py: recursive + memo table `visited`; answers of the callees accumulated with `|=`), C06_exit_marks_exactly_cycle_closers with the expression exit_scc assigns to `is_in_scc` (the search alone); the scanner recognises a fixed code shape, anything else is reported as a broken correspondence",
+      "C06_search_terminates and C06_search_answer_correct are instantiated with the shape of check_cyclic_internal read from computing.rs on this run (tools/gen_sources.py: recursive + memo table `visited` whose entry is overwritten with the answer after the recursive call; answers of the callees accumulated with `|=`), C06_exit_marks_exactly_cycle_closers with the expression exit_scc assigns to `is_in_scc` (the search alone); the scanner recognises a fixed code shape, anything else is reported as a broken correspondence",
       "termination with the right values of whole cyclic programs is PROVED for a fresh engine (Normal, Firewall and Projection queries) (C06_fresh_cyclic_program_takes_defaults: explicit fuel bound, values of the independent specification cyc_spec = the harness oracle oracle_cyclic); for later requests it is validated (model with cycles = real engine on random cyclic programs; oracle: no hang, no panic, acyclic sub-queries equal the from-scratch value), not proved",
       "cycles through firewalls / projections: two recorded hangs (known_findings.txt), replayed from witness/*.txt on every run",
       ] + ec.ENGINE_TB
